@@ -7,7 +7,7 @@ from props import dlgen as DG
 from props import updgen as UG
 
 PROP = 'C05'
-MODULES = ['ZckModel.Props.C05', 'ZckModel.Props.C05Frag', 'ZckModel.Props.C05Complete', 'ZckModel.Props.C05Multipart', 'ZckModel.Props.C05MpComplete', 'ZckModel.Props.C05MpFrag']
+MODULES = ['ZckModel.Props.C05', 'ZckModel.Props.C05Frag', 'ZckModel.Props.C05Complete', 'ZckModel.Props.C05Multipart', 'ZckModel.Props.C05MpComplete', 'ZckModel.Props.C05MpFrag', 'ZckModel.Props.C05Feed']
 ASSUMPTIONS = [
     "regcomp/regexec (glibc) are an oracle: the model is given libc's logged answers; theorems quantify over every oracle",
     "the target is a regular file written with lseek+write; a transport stops at the first callback that refuses its data "
